@@ -25,7 +25,7 @@ DEVIATION_BREAKS = {"PickMaxOptional": ["NoPanic"], "ArrayNoFallThrough": ["NoPa
 def deviation_constants(cfg):
     txt = open(os.path.join(vlib.SPEC, "cfg", cfg)).read()
     return {k: v == "TRUE" for k, v in re.findall(r"^\s*(\w+) = (TRUE|FALSE)\s*$", txt, re.M) if k in DEVIATION_BREAKS}
-ACTIONS = ["ChooseDef", "ChooseWallet", "WalletMatch", "Build", "MutateSubmission", "VerifierValidate"]
+ACTIONS = ["ChooseDef", "ChooseWallet", "WalletMatch", "Build", "PresentIncomplete", "MutateSubmission", "VerifierValidate"]
 WORKERS = 8
 
 
